@@ -35,9 +35,14 @@ func checkC18(r *Run) {
 
 	// R-C18-1: request calls
 	baseReq := map[*ssa.Function]string{}
+	implReq := map[*ssa.Function]bool{} // request implementations called directly: the context is the first operand
 	for _, n := range []string{"Publish", "Subscribe", "Unsubscribe", "Disconnect", "Ping"} {
 		if m := c.Method("BaseClient", n); m != nil {
 			baseReq[m] = n
+			if impl := c.implOf(m); impl != nil {
+				baseReq[impl] = n
+				implReq[impl] = true
+			}
 		}
 	}
 	for _, f := range c.Funcs {
@@ -65,7 +70,12 @@ func checkC18(r *Run) {
 			}
 			key := FuncName(f) + "/" + name
 			var ctxArg ssa.Value
-			if isReq {
+			if isReq && implReq[callee] {
+				if enclosingTop(f) == callee || f == c.Method("BaseClient", name) {
+					return // the implementation's own retry handle / the base method delegating: not a RetryClient request
+				}
+				ctxArg = k.Call.Args[0]
+			} else if isReq {
 				ctxArg = k.Call.Args[1]
 			} else {
 				ctxArg = k.Call.Args[0]
